@@ -92,7 +92,7 @@ pub fn seeds() -> Vec<(&'static str, Module)> {
     // S10: string DEFAULTs with a space inside the quotes
     out.push((
         "s10-literals",
-        Module::new("Literals").def("T", Ty::seq(vec![Comp::new("s", utf(Size::Any)).default(Lit::Str("a b".into())), Comp::new("i", Ty::int_r(0, 9)).default(Lit::Int(4)), Comp::new("b", Ty::Bool).default(Lit::Bool(false))])),
+        Module::new("Literals").def("T", Ty::seq(vec![Comp::new("s", utf(Size::Any)).default(Lit::Str("a b".into())), Comp::new("t", utf(Size::Any)).default(Lit::Str("x--y /* z".into())), Comp::new("i", Ty::int_r(0, 9)).default(Lit::Int(4)), Comp::new("b", Ty::Bool).default(Lit::Bool(false))])),
     ));
     // S13: recursion through untagged CHOICE alternatives (directly, and two CHOICEs naming each other), through a
     // list and through an OPTIONAL component: tag resolution and type conversion must terminate
